@@ -29,7 +29,7 @@ def bcfg(maxlen, alphabet, maxchunk=3, looks="{1, 2}"):
 def run(ctx):
     build("vfiles")
     if ctx.replay:
-        run_harness(ctx, "vfiles", ["c26", "--replay", ctx.replay, "--out", ctx.path("res.json")])
+        run_harness(ctx, "vfiles", ["c26", "--replay", os.path.abspath(ctx.replay), "--out", ctx.path("res.json")])
         res = json.load(open(ctx.path("res.json")))
         for v in res["violations"]:
             report_violation(ctx, v)
